@@ -40,6 +40,29 @@ def load_transforms():
     return out
 
 
+def load_benign():
+    """independently written behaviour-preserving refactorings under /verif/benign (confirmed by their authors' equivalence scripts and
+    the pinned suite): every claimed property must stay silent on each of them"""
+    import json
+    from droopsa.props import PROPS
+    out = []
+    d = os.path.join(VERIF, 'benign')
+    if not os.path.isdir(d):
+        return out
+    for name in sorted(os.listdir(d)):
+        mp, pp = os.path.join(d, name, 'meta.json'), os.path.join(d, name, 'patch.diff')
+        if not (os.path.exists(mp) and os.path.exists(pp)):
+            continue
+        with open(mp) as f:
+            meta = json.load(f)
+        if not meta.get('confirmed'):
+            continue
+        for pid in sorted(PROPS):
+            out.append(dict(id='benign-%s@%s' % (name, pid), prop=pid, rule=None, expect='silent', patch=pp, anyfile=True, benign=True,
+                            accept_refusal=meta.get('accepted_refusals', {}).get(pid)))
+    return out
+
+
 def load_seeded():
     """the independently written breaking changes under /verif/seeded: each must be reported under its own property"""
     import json
@@ -111,6 +134,8 @@ def _run_one(m):
             code, ctx, violations, known, error = run_property(m['prop'], 'quick', only=m.get('rule'), repo_root=tmp, quiet=True, write=False)
             if m['expect'] == 'silent':
                 res['outcome'] = 'silent' if code == 0 else 'false-alarm(exit %d)' % code
+                if code == 2 and m.get('accept_refusal'):
+                    res['outcome'] = 'refused'      # a recorded, explained refusal (unrecognised shape): not an alarm
                 if code != 0:
                     res['detail'] = (error or '') + '; '.join('%s %s:%s %s' % (o.rule, o.file, o.line, o.how[:120]) for o in violations[:3])
                 return res
@@ -188,7 +213,7 @@ def run_for_property(pid):
         home = dict(PROPS.get(m['prop'], {}).get('rules', []))
         return m.get('rule') in my_fns and home.get(m['rule']) is my_fns[m['rule']]
     ms = []
-    for m in load_mutants() + load_seeded() + load_transforms():
+    for m in load_mutants() + load_seeded() + load_transforms() + load_benign():
         if m['prop'] == pid:
             ms.append(m)
         elif same_rule(m) and not m.get('patch') and not m.get('transform'):
@@ -210,10 +235,10 @@ def run_for_property(pid):
 
 
 def main(args, strict=False):
-    ms = load_mutants() + load_seeded() + load_transforms()
+    ms = load_mutants() + load_seeded() + load_transforms() + load_benign()
     if args:
         ms = [m for m in ms if m['prop'] in args or m['rule'] in args or m['id'] in args or (args == ['seeded'] and m['id'].startswith('seeded-'))
-              or (args == ['twins'] and m.get('transform'))]
+              or (args == ['twins'] and m.get('transform')) or (args == ['benign'] and m.get('benign'))]
     rs = run(ms)
     bad = 0
     for r in rs:
